@@ -82,7 +82,7 @@ def run(replay=None):
         if first is not None:
             nuninit += 1
             if nuninit <= 4:
-                cmds = [l for l in c["lines"] if l.startswith("sol.")]
+                cmds = [l for l in c["lines"] if l.startswith("sol.") and not l.startswith("sol.new")]
                 op = cmds[first[0]].split()[0] if first[0] < len(cmds) else "?"
                 chk.violation(f"impl:uninit-use:be{c['meta']['be']}:pk{c['meta']['pk']}:{op}",
                               f"a never-written (default-constructed) value was used as an operand during command #{first[0]} ({op}): "
